@@ -491,6 +491,17 @@ def generate(repo):
     st = loop_body(prep, consts, "setup_pure_phases", ["Get_si", "("])
     defstmt("quick_pp", qs, "quick_setup(): PP row (model reused: values refreshed from the assemblage component)")
     defstmt("setup_pp", st, "setup_pure_phases(): loop body (model built)")
+    # solid-solution unknowns: copy of the component state into the shared phase record (full build and reuse)
+    for nm, fn in (("setup_ss", "setup_ss_assemblage"), ("quick_ss", "quick_setup")):
+        body = loop_body(prep, consts, fn, ["log10_lambda"])
+        defstmt(nm, body, "%s(): body of the loop over the components of a solid solution" % fn)
+        av = []
+        assigned_vars(body, av)
+        src = sorted(set(e[1][:-len(".log10_lambda")] for v, e in av
+                         if v == "x.phase.log10_lambda" and e[0] == "var" and e[1].endswith(".log10_lambda")))
+        if len(src) != 1:
+            raise Refuse("%s: cannot identify the component phase->log10_lambda is copied from" % fn)
+        w('Definition %s_comp : string := "%s".  (* the solid-solution component the phase record is filled from *)\n' % (nm, src[0]))
     for nm, stm in (("quick_comp", qs), ("setup_comp", st)):
         av = []
         assigned_vars(stm, av)
